@@ -86,7 +86,26 @@ def main():
         sh(['git', '-C', '/repo', 'worktree', 'remove', '--force', wt])
         shutil.rmtree(wt, ignore_errors=True)
         shutil.rmtree('/tmp/seed_evidence_%d' % os.getpid(), ignore_errors=True)
-        with open(os.path.join(d, 'result.json'), 'w') as f:
+        rj = os.path.join(d, 'result.json')
+        if os.path.exists(rj):
+            # keep what earlier runs established (pinned suite, checks not re-run now); a re-run check replaces its entry
+            try:
+                old = json.load(open(rj))
+            except ValueError:
+                old = {}
+            for k in ('tests_pass', 'tests_detail'):
+                if k not in res and k in old:
+                    res[k] = old[k]
+            hist = dict(old.get('earlier_runs', {}))
+            for pp, v in (old.get('checks') or {}).items():
+                if pp in (res.get('checks') or {}) and v.get('rc') != res['checks'][pp].get('rc'):
+                    hist.setdefault(pp, []).append({'rc': v.get('rc'), 'when': old.get('started')})
+            merged = dict(old.get('checks') or {})
+            merged.update(res.get('checks') or {})
+            res['checks'] = merged
+            res['earlier_runs'] = hist
+            res['caught_by'] = sorted(pp for pp, v in merged.items() if v['rc'] == 1)
+        with open(rj, 'w') as f:
             json.dump(res, f, indent=1)
 
 
